@@ -49,7 +49,8 @@ type Enc struct {
 	decls      []string
 	declKeys   []string
 	declared   map[string]bool
-	preserving bool   // the current class-0 havoc is followed by preserve() (A-OWN)
+	preserving bool // the current class-0 havoc is followed by preserve() (A-OWN)
+	lamMemo    map[string]string
 	havocChans bool   // set while havocking for a callee that may operate on channels
 	wlog       []wrec // heap writes seen while probing a loop
 	prot       []T    // protected terms (refs loaded from fields owned by the root's package)
@@ -75,7 +76,7 @@ func newEnc(w *World, db *ContractDB, root string) *Enc {
 	e := &Enc{w: w, db: db, declared: map[string]bool{}, heapSort: map[string]string{},
 		protSet: map[string]bool{}, structDT: map[string]bool{}, strIDs: db.strIDs,
 		typeIDs: db.typeIDs, typeByID: db.typeByID, funcIDs: map[string]int{}, obNames: map[string]int{},
-		rootFn: root, notes: map[string]bool{}, assumed: map[string]bool{}}
+		rootFn: root, notes: map[string]bool{}, assumed: map[string]bool{}, lamMemo: map[string]string{}}
 	return e
 }
 
@@ -110,6 +111,11 @@ func (e *Enc) rollback(s *snapshot) {
 	e.declKeys = e.declKeys[:s.ndecls]
 	for _, p := range e.prot[s.nprot:] {
 		delete(e.protSet, p.S)
+	}
+	for k, v := range e.lamMemo {
+		if !e.declared[v] {
+			delete(e.lamMemo, k)
+		}
 	}
 	e.prot = e.prot[:s.nprot]
 	e.items = e.items[:s.nitems]
